@@ -57,6 +57,7 @@ type FuncSpec struct {
 	Assumed  bool
 	Conc     bool
 	IsIface  bool
+	IsCallback bool
 	NoInline bool
 	Unroll   bool
 	Loops    map[string]*LoopSpec
@@ -115,7 +116,7 @@ func newSpecDB() *SpecDB {
 
 var clauseKw = map[string]bool{"requires": true, "ensures": true, "modifies": true, "panics": true, "props": true,
 	"loop": true, "invariant": true, "pure": true, "assumed": true, "concurrent": true, "noinline": true, "unroll": true, "let": true, "decreases": true, "witness": true, "replay": true}
-var topKw = map[string]bool{"func": true, "iface": true, "ghost": true, "spec": true, "lemma": true}
+var topKw = map[string]bool{"func": true, "iface": true, "callback": true, "ghost": true, "spec": true, "lemma": true}
 
 func firstWord(s string) (string, string) {
 	s = strings.TrimSpace(s)
@@ -182,8 +183,13 @@ func (db *SpecDB) loadFile(path, pkgPath string) error {
 		w, rest := firstWord(it.text)
 		fail := func(msg string) error { return fmt.Errorf("%s:%d: %s: %s", path, it.line, msg, it.text) }
 		switch w {
-		case "func", "iface":
+		case "func", "iface", "callback":
 			fs, err := parseHeader(strings.TrimSpace(rest), pkgPath, w == "iface")
+			if err == nil && w == "callback" {
+				fs.Key += ".call"
+				fs.IsCallback = true
+				fs.Assumed = true
+			}
 			if err != nil {
 				return fail(err.Error())
 			}
@@ -212,10 +218,10 @@ func (db *SpecDB) loadFile(path, pkgPath string) error {
 				cur = nil
 				continue
 			}
-			if len(f) != 3 || f[0] != "var" {
+			if len(f) < 3 || f[0] != "var" {
 				return fail("ghost var NAME SORT")
 			}
-			db.Ghosts[f[1]] = &GhostVar{Name: f[1], Sort: f[2], Pkg: pkgPath}
+			db.Ghosts[f[1]] = &GhostVar{Name: f[1], Sort: strings.Join(f[2:], " "), Pkg: pkgPath}
 			cur = nil
 		case "spec":
 			sf, err := parseSpecFunc(strings.TrimSpace(rest), pkgPath)
